@@ -457,5 +457,5 @@ func TestC14(t *testing.T) {
 	}
 	r.CheckKnown(parts)
 	r.Exhaustive("chains", 0, c14Chains)
-	r.Rapid("histories", r.N(10000, 150000), c14Prop)
+	r.Rapid("histories", r.N(10000, 500000), c14Prop)
 }
